@@ -615,6 +615,18 @@ def translate(path):
                     errors.append("%s.%s: %s" % (n.name, f.name, e))
                 except Exception as e:  # fail closed on anything unexpected
                     errors.append("%s.%s: translator exception %r" % (n.name, f.name, e))
+            # export / build / factory are pure templates: record the body with the class name abstracted
+            for f in n.body:
+                if isinstance(f, ast.FunctionDef) and f.name in ("export", "build", "factory"):
+                    body = "\n".join(U(st) for st in f.body if not (isinstance(st, ast.Expr) and isinstance(st.value, ast.Constant)))
+                    sig = U(f.args)
+                    txt = re.sub(r"\b%s\b" % re.escape(n.name), "@C@", sig + "\n" + body)
+                    if f.name == "export":
+                        # two presentation-only variations of the template: the default namespace definition and
+                        # the indentation written before the closing tag of an element that has children
+                        txt = txt.replace("namespacedef_=' xmlns:None=\"http://www.neuroml.org/schema/neuroml2\" '", "namespacedef_=''")
+                        txt = txt.replace("\n    showIndent(outfile, level, pretty_print)\n    outfile.write('</%s%s>%s'", "\n    outfile.write('</%s%s>%s'")
+                    rec.setdefault("template_bodies", {})[f.name] = txt
             for need in ("init_params", "has_content", "exp_attrs", "bld_attrs", "exp_kids", "bld_kids", "val_items"):
                 if need not in rec:
                     errors.append("%s: method for %s missing or untranslated" % (n.name, need))
@@ -632,6 +644,20 @@ def translate(path):
             for f in n.body:
                 if isinstance(f, ast.FunctionDef) and re.match(r"gds_(format|parse|validate)_(integer|float|double|boolean|string)$|gds_encode$|gds_build_any$|gds_validate_simple_patterns$|get_class_obj_$|gds_check_cardinality_$|gds_validate_builtin_ST_$|gds_validate_defined_ST_$", f.name):
                     runtime["GeneratedsSuper." + f.name] = [U(s) for s in f.body if not (isinstance(s, ast.Expr) and isinstance(s.value, ast.Constant))]
+    # every class must carry the same export/build/factory template (the most common body is the template)
+    import collections
+    for meth in ("export", "build", "factory"):
+        cnt = collections.Counter(c.get("template_bodies", {}).get(meth) for c in classes)
+        if not cnt:
+            continue
+        canon, _ = cnt.most_common(1)[0]
+        runtime["template:" + meth] = canon
+        for c in classes:
+            b = c.get("template_bodies", {}).get(meth)
+            if b != canon:
+                errors.append("%s.%s: %s" % (c["name"], meth, "method missing" if b is None else "body deviates from the generated template"))
+    for c in classes:
+        c.pop("template_bodies", None)
     return {"classes": classes, "errors": errors, "runtime": runtime}
 
 
